@@ -140,6 +140,12 @@ def check_api(case, when, stats: Stats | None):
         raise Violation(f"C15:{key}", what, full)
 
     horizon = 700.0
+    if when.get("last_answer"):
+        # the last handshake answer arrives in an instant of its own (otherwise "k loop turns into the instant" lands
+        # somewhere in the middle of a handshake that runs within one instant)
+        last = case["behaviour"][con.STEPS[-1]][0]
+        if not last.get("delay"):
+            case = dict(case, behaviour=dict(case["behaviour"], **{con.STEPS[-1]: [dict(last, delay=0.125)]}))
     # ---- dry run: the scenario's own event instants
     rig, _h = _mk_api(case)
     try:
@@ -155,6 +161,7 @@ def check_api(case, when, stats: Stats | None):
         # after the delivery (the answer has been read / decoded / is being processed)
         T, same_instant = answers[-1 - (when["pick"] % min(2, len(answers)))], True
         when = dict(when, after=True, early=False, uniform=None)
+        full["at_last_answer"] = True
 
     # ---- real run
     rig = None
@@ -227,6 +234,10 @@ def check_api(case, when, stats: Stats | None):
         if same_instant:
             classes.append("same-instant")
         nt = (not phase[0]) or same_instant
+        if full.get("at_last_answer") and T >= 0.015625:
+            classes.append("at-a-last-handshake-answer")
+            if case.get("close_latency"):
+                classes.append("at-a-last-handshake-answer+slow-close")
         if case["reinit"]:
             classes.append("reinit")
             _reinit(bad, rig, case)
@@ -591,7 +602,7 @@ def shards(tier: str):
 
 def floors(tier: str):
     return {"same-instant": 50, "phase:connecting": 20, "phase:backoff-or-idle": 20, "phase:handshake": 10, "phase:initialised": 20,
-            "pending-messages": 10, "reinit": 30, "write-fault-in-caller-task": 40, "close-while-a-write-is-stalled": 15, "close-in-the-instant-of-a-write-fault": 40}
+            "pending-messages": 10, "reinit": 30, "write-fault-in-caller-task": 40, "close-while-a-write-is-stalled": 15, "close-in-the-instant-of-a-write-fault": 40, "at-a-last-handshake-answer+slow-close": 20}
 
 
 def run_shard(spec, seed: int, tier: str):
